@@ -165,11 +165,14 @@ namespace sim
 			ep.port(m_next_bind_port++);
 			if (m_next_bind_port > 65534) m_next_bind_port = 2000;
 
+			// probe the whole ephemeral range, wrapping around the same way
+			// the counter does, before giving up
+			auto const first = ep.port();
 			listen_socket_iter_t i = m_listen_sockets.lower_bound(ep);
 			while (i != m_listen_sockets.end() && i->first == ep)
 			{
-				ep.port(ep.port() + 1);
-				if (ep.port() > 65530)
+				ep.port(ep.port() >= 65534 ? 2000 : ep.port() + 1);
+				if (ep.port() == first)
 				{
 					ec = boost::asio::error::address_in_use;
 					return ip::tcp::endpoint();
@@ -224,11 +227,14 @@ namespace sim
 
 			ep.port(m_next_bind_port++);
 			if (m_next_bind_port > 65534) m_next_bind_port = 2000;
+			// probe the whole ephemeral range, wrapping around the same way
+			// the counter does, before giving up
+			auto const first = ep.port();
 			udp_socket_iter_t i = m_udp_sockets.lower_bound(ep);
 			while (i != m_udp_sockets.end() && i->first == ep)
 			{
-				ep.port(ep.port() + 1);
-				if (ep.port() > 65530)
+				ep.port(ep.port() >= 65534 ? 2000 : ep.port() + 1);
+				if (ep.port() == first)
 				{
 					ec = boost::asio::error::address_in_use;
 					return ip::udp::endpoint();
